@@ -33,14 +33,22 @@ def scenario(rng, i):
     files = gen.all_files(cur)
     if steps and rng.random() < 0.25:
         last["sf"] = [rng.choice(files)]
-    return {"tree": tree, "steps": steps, "interrupted": last}
+    scn = {"tree": tree, "steps": steps, "interrupted": last}
+    if i % 6 == 5:
+        # the folder was renamed after its first generations: its name is now so long that <manifest name>.tmp exceeds the
+        # 255-byte limit of a file name while the manifest name itself still fits -- the run ends with an error, and at
+        # whatever point it is killed before that, what was recorded stays as it was
+        scn["steps"] = [st for st in steps if not st.get("root")] or [{"op": "create", "fmts": ["md5"]}]
+        scn["long_root"] = "renamed_" + "x" * 218
+        last.pop("sf", None)
+    return scn
 
 
-def run_kill(root_src, base_parent, tag, spec, argv_rel):
+def run_kill(root_src, base_parent, tag, spec, argv_rel, root_name="r"):
     """copies the prepared tree, runs the interrupted create in a subprocess; -> (work dir, returncode, info | None)"""
     work = os.path.join(base_parent, tag)
-    shutil.copytree(root_src, os.path.join(work, "r"), symlinks=True)
-    root = os.path.join(work, "r")
+    shutil.copytree(root_src, os.path.join(work, root_name), symlinks=True)
+    root = os.path.join(work, root_name)
     argv = [os.path.join(root, a[5:]) if a.startswith("ROOT/") else (root if a == "ROOT" else a) for a in argv_rel]
     env = dict(os.environ)
     p = subprocess.run([core.PY, RUNNER, work, json.dumps(spec), json.dumps(argv)], capture_output=True, text=True, timeout=120, env=env)
@@ -58,7 +66,7 @@ def state_of(root):
     return st
 
 
-def judge(before_state, before_bytes, root, spec):
+def judge(before_state, before_bytes, root, spec, long_root=False):
     """-> list of (signature, what) for the state a kill left behind"""
     bad = []
     after = state_of(root)
@@ -98,6 +106,8 @@ def judge(before_state, before_bytes, root, spec):
         for f in a["files"]:
             remains[os.path.join(h, "ascmhl", f)] = open(os.path.join(root, h, "ascmhl", f), "rb").read()
     for cmd, args in (("info", [root]), ("verify", [root]), ("create", [root, "-h", "md5"])):
+        if long_root and cmd == "create":
+            continue        # ends with 'file name too long' in that folder, killed or not
         oc, out = impl.run_cli(cmd, args)
         if cmd == "create" and oc[0] == "exit" and oc[1] not in (31, 32, 33):
             # the run after the kill is an ordinary create: it must not touch what is there (C06) nor re-use a generation number
@@ -122,7 +132,7 @@ RULE = ("create (folder mode, sometimes -sf) on trees with 0-3 committed generat
         "immediately before each write-type audit event (mkdir, open-for-write, os.replace), at each write() into a file under construction (once with the Python buffer "
         "dropped, once flushed with half of the chunk on disk) and before each close(); after every kill: committed manifests compared byte for byte, chain parsed "
         "independently and compared entry for entry, state classified (whole / absent / window W1 / window W2), then info, verify and create are run on the remains. "
-        "The uninterrupted run's event trace is compared with the model's operation list. Non-trivial: a kill that happened after the first write event.")
+        "One scenario in six: the folder renamed to a 226-byte name (manifest name fits, <name>.tmp does not). The uninterrupted run's event trace is compared with the model's operation list. Non-trivial: a kill that happened after the first write event.")
 LEVEL_NOTE = "partial by nature: theorems about the model of the write sequence + real kills at every point of sampled runs; power loss below the VFS (no fsync model) is out of reach"
 
 
@@ -138,7 +148,7 @@ def check(rep, tier, seed):
             pre = {"tree": scn["tree"], "steps": scn["steps"]}
             io, root = world.run_impl(pre, scratch)
             last = scn["interrupted"]
-            full = {"tree": scn["tree"], "steps": scn["steps"] + [last]}
+            full = {"tree": scn["tree"], "steps": scn["steps"] + [last], **({"long_root": scn["long_root"]} if scn.get("long_root") else {})}
             before_state = state_of(root)
             before_bytes = {}
             for h in before_state:
@@ -151,7 +161,8 @@ def check(rep, tier, seed):
             for s in last.get("sf") or []:
                 argv += ["-sf", "ROOT/" + s]
             base = scratch.new("k")
-            work, rc, info, tail = run_kill(root, base, "count", {"kind": "count"}, argv)
+            rname = scn.get("long_root") or "r"
+            work, rc, info, tail = run_kill(root, base, "count", {"kind": "count"}, argv, rname)
             if info is None:
                 rep.disagree({"scenario": full}, None, tail, "the uninterrupted reference run did not finish")
                 continue
@@ -160,6 +171,9 @@ def check(rep, tier, seed):
             ops = oracles.normalise_audit([[e[0]] + ["r/" + x[2:] if x.startswith("r/") else x for x in e[1:]] for e in info["trace"]])
             want = [[k, p] for k, p in (mo[-1] or {}).get("ops", [])] if mo[-1] else None
             rep.traces += 1
+            if scn.get("long_root"):
+                rep.count("long_root_scenarios")
+                want = None         # the uninterrupted run ends at the first file it cannot name; the model has no name-length limit
             if want is not None and [[k, p] for k, p in ops] != want:
                 rep.disagree({"scenario": full}, want, ops, "the sequence of write operations of the uninterrupted run differs from the model's operation list")
             c = info["counts"]
@@ -171,7 +185,7 @@ def check(rep, tier, seed):
                 points += [{"kind": "write", "k": k, "flush": False}, {"kind": "write", "k": k, "flush": True}]
             points += [{"kind": "close", "k": k} for k in range(1, c["close"] + 1)]
             rep.count("kill_points", len(points))
-            futs = {pool.submit(run_kill, root, base, f"p{j}", sp, argv): sp for j, sp in enumerate(points)}
+            futs = {pool.submit(run_kill, root, base, f"p{j}", sp, argv, rname): sp for j, sp in enumerate(points)}
             for fut in concurrent.futures.as_completed(futs):
                 sp = futs[fut]
                 work, rc, inf, tail = fut.result()
@@ -179,7 +193,7 @@ def check(rep, tier, seed):
                 if rc != 137:
                     rep.disagree({"scenario": full, "kill": sp}, 137, rc, "the kill point was not reached: " + tail)
                     continue
-                verdicts = judge(before_state, before_bytes, os.path.join(work, "r"), sp)
+                verdicts = judge(before_state, before_bytes, os.path.join(work, rname), sp, long_root=bool(scn.get("long_root")))
                 rep.case((i, json.dumps(sp)), nontrivial=not (sp["kind"] == "event" and sp["k"] == 1),
                          sample={"steps": full["steps"], "kill": sp, "verdicts": verdicts} if len(rep.samples) < 3 and verdicts else None)
                 for sig, what in verdicts:
@@ -208,8 +222,9 @@ def replay(rep, data):
         before_state = state_of(root)
         before_bytes = {os.path.join(h, "ascmhl", f): open(os.path.join(root, h, "ascmhl", f), "rb").read() for h in before_state for f in before_state[h]["files"]}
         argv = ["ROOT"] + [x for f in last["fmts"] for x in ("-h", f)] + [x for s in last.get("sf") or [] for x in ("-sf", "ROOT/" + s)]
-        work, rc, inf, tail = run_kill(root, scratch.new("k"), "p", sp, argv)
-        v = judge(before_state, before_bytes, os.path.join(work, "r"), sp)
+        rname = scn.get("long_root") or "r"
+        work, rc, inf, tail = run_kill(root, scratch.new("k"), "p", sp, argv, rname)
+        v = judge(before_state, before_bytes, os.path.join(work, rname), sp, long_root=bool(scn.get("long_root")))
         print("kill", sp, "rc", rc, "verdicts", v)
         return 1 if v else 0
     finally:
